@@ -65,12 +65,15 @@ PROVED = {
          "refill loop) yields exactly the run of the abstract reader Pure.v on the input; hence identical items/offsets/errors for any two chunkings "
          "and capacities. EOF pauses (Proofs/Pauses.v, PausesLookahead.v), with end-of-stream closing disabled: C04_pause_boundary_noop — a temporary "
          "Ok(0) met at a tag boundary is a no-op that yields None and leaves the abstract state unchanged; C04_pause_run_many — for a run whose pauses "
-         "are all met at tag boundaries, repeated drains yield exactly the slice run's results with one None inserted per pause (any capacity, any "
+         "are all met at tag boundaries, repeated drains yield exactly the slice run's results with one None inserted per boundary pause (any capacity, any "
          "chunks between the pauses, any buffered set); C04_step_nopause_refines — every call that consumes no pause refines the abstract reader; "
          "C04_pause_run_lookahead / C04_pause_swallowed — pauses swallowed by the 16-byte header look-ahead while the current tag is complete in the "
-         "window change nothing. The hypotheses on the paused run are semantic (where each pause is met); the correspondence run covers exhaustive "
+         "window change nothing (this case needs nothing buffered, bytes < 256, and — because the look-ahead asks for 16 bytes — is met only when the tag "
+         "before the pause is a non-master element of at least 16 bytes). C04_refines abstracts the window: compaction and stale bytes are invisible to "
+         "it by construction, so a compaction bug can be caught by the correspondence run only. The hypotheses on the paused run are semantic (where each pause is met); the correspondence run covers exhaustive "
          "partitions x capacities of small inputs and pause scripts computed from the document layout; pauses inside a buffered master are known finding D18.", ""),
- "C17": ("Theorem C17_buffer_bounded: with a size limit m the model's buffer length never exceeds max(initial capacity, 16, m), for every input, "
+ "C17": ("Theorem C17_buffer_bounded: with a size limit m the model's buffer length (r_cap, which only ever grows, so its final value is the peak) never "
+         "exceeds max(initial capacity, 16, m) on a 64-bit usize, for every input, "
          "configuration, source script (pauses and I/O errors included) and call sequence; a header declaring a larger known size is never accepted "
          "and header validation requests at most 16 bytes of buffer (the size error comes before any allocation or read for the payload). "
          "C17_no_overflow (Proofs/NoOverflow.v): for byte inputs shorter than 2^62 bytes every sum the code computes on usize while parsing stays "
@@ -114,14 +117,15 @@ PROVED = {
          "invariant over the reader's stack; transferred to the buffered machine for every capacity and chunking. PARTIAL: declared paths without "
          "global placeholders. C01_full_roundtrip_partial: the same with masters given as Full items. C01_reader_roundtrip_known_partial (Proofs/RoundTripKnown.v): "
          "complementary class — every master of known size, declared paths with global placeholders ALLOWED (global elements at any depth, recursive "
-         "masters): the reader yields exactly the document's items, provided the first placeholder-free element is a top-level one (needed only for "
-         "specifications that are not derive-consistent: a child whose path omits its global parent's placeholder; counterexample exhibited). "
+         "masters): the reader yields exactly the document's items, provided the first placeholder-free element is a top-level one (hypothesis dstart; believed — not proved — to follow "
+         "from kconf for derive-consistent specifications; the exhibited counterexample uses a child whose path omits its global parent's placeholder). "
          "C01_reader_roundtrip_raw_partial / C01_roundtrip_raw_partial (Proofs/RoundTripRaw.v): raw tags with well-formed ids round-trip when unknown "
          "ids are allowed — reader half for known-size documents with raw leaves anywhere, writer half (write_raw and write(RawTag)) and the full round "
          "trip. C01_roundtrip_known_partial2 / C01_full_roundtrip_known_partial / C01_mixed_roundtrip_known_partial (Proofs/WriteEncG.v): the writer half and "
          "the full write->read round trip for the second class (paths with global placeholders), for separate calls, Full items and arbitrary mixes. "
          "Global elements below unknown-size masters (inherently ambiguous) are covered by the "
-         "correspondence run (write-then-read of random conformant documents incl. boundary payload lengths, widths, Full, unknown sizes, raw tags).", ""),
+         "correspondence run (write-then-read of random conformant documents incl. boundary payload lengths, widths, Full, unknown sizes, raw tags)."
+         " ('Strict configuration' in these theorems = the three tolerances off; the document-level theorems also assume nothing buffered and end-of-stream closing on, the default — c_buffered = [] and c_emit_eof = true are explicit hypotheses.)", ""),
  "C02": ("PARTIAL. Theorem C02_fixpoint_partial: for every strict configuration and every conforming document in ANY encoding (zero-padded or empty "
          "integers, 4-byte floats, any size width incl. 8-byte fields, any subset of unknown-size masters closed by a following element or EOF), the "
          "tags the reader yields are all accepted by the writer under default options, its output is the canonical encoding, and reading that yields the "
@@ -133,7 +137,8 @@ PROVED = {
          "paths with global placeholders: global elements at any depth, recursive masters); C02_canon_idempotent / C02_rewrite_stable: after one round "
          "the output is canonical — re-writing the second read gives byte-identical output (both classes). Hypothesis: the "
          "re-encoding's sizes stay below 2^56-1 and the reader's size limit. Global elements below unknown-size masters (inherently ambiguous) and reader/"
-         "writer validator agreement on arbitrary accepted streams are covered by the correspondence run (read-write-read on mutated/hand-crafted streams).", ""),
+         "writer validator agreement on arbitrary accepted streams are covered by the correspondence run (read-write-read on mutated/hand-crafted streams)."
+         " ('Strict configuration' in these theorems = the three tolerances off; the document-level theorems also assume nothing buffered and end-of-stream closing on, the default — c_buffered = [] and c_emit_eof = true are explicit hypotheses.)", ""),
  "C06": ("Theorems: (Proofs/Nesting.v) C06_strict_items_well_nested — for every strict configuration (unknown ids and hierarchy errors not tolerated, "
          "nothing buffered), every byte input and every sequence of next()/try_recover()/drain operations, the successfully emitted tags are accepted "
          "by an independent checker started from some base chain (empty when reading from a root; the implied ancestors of the first placeholder-free "
@@ -151,13 +156,16 @@ PROVED = {
          "encodings of the same tags (any known/unknown choice, any widths) read as the same tag sequence. Restricted to paths without global "
          "placeholders; global elements after unknown-size masters are covered by the correspondence groups.", ""),
  "C05": ("Theorems: C05_no_panic — for every configuration whose specification passes the derive check (implied_ok), every byte input and every "
-         "next()/try_recover() sequence, no call of the abstract reader panics (model Panic outcomes = every unwrap/expect/index/arithmetic site of the "
-         "code path); C05_never_out_of_fuel (Proofs/Termination.v) — the fuel the model's loops run with is always sufficient, i.e. every loop of "
+         "next()/try_recover() sequence, no call of the abstract reader panics (the model has a Panic outcome for: the two checked operations of read_vint, a missing implied parent "
+         "(the 'bad specification' panic) and an out-of-range queue index; slicing and usize subtraction are totalised in the model by firstn/skipn "
+         "and truncating subtraction — their safety is the subject of C17_no_overflow and of the correspondence run under catch_unwind); C05_never_out_of_fuel (Proofs/Termination.v) — the fuel the model's loops run with is always sufficient, i.e. every loop of "
          "read_next / buffer_master (any nesting of buffered masters) / try_recover terminates: a potential (queued items + open masters + 2 x remaining "
          "bytes) never increases and every successful header consumes a byte; C05_drain_within_limit / C05_drain_length — a full drain yields at most "
          "slack + 2*|input| + 1 results (slack = deepest declared path, for the implied ancestors), so it ends within the call bound whenever paths are "
-         "<= 63 deep; all transferred to the buffered machine for every capacity and calm script; decoders total; an exhausted reader stays exhausted "
-         "(C05_fused); a source I/O error surfaces as an error; try_recover never moves backwards and fails only with end of input. Model notes found by "
+         "<= 63 deep; all transferred to the buffered machine for every capacity and calm script; decoders total; an exhausted reader with no open master stays exhausted "
+         "(C05_fused); a source I/O error surfaces as an error (after the repair of D25 also inside try_recover); try_recover never moves backwards and "
+         "fails only with end of input or the source's error. The buffered-machine statements hold for calm scripts (no pause, no injected fault); runs "
+         "with injected faults are covered by the I/O theorems and the correspondence run. Model notes found by "
          "the termination proof: bytes must be < 256 (true of u8), and the run bound 4*|input|+64 of the model is exceeded by specifications deeper than "
          "~67 levels on 2-byte inputs (Example C05_deep_spec_exceeds_call_bound) — a limit of the model's driver, not of the code. Panics outside the "
          "modelled sites are covered by the adversarial correspondence runs under catch_unwind with hang detection.", ""),
@@ -168,8 +176,10 @@ PROVED = {
          "same unrolled tags; C08_error_prefix — if the unbuffered run ends in an error e, the buffered run yields items whose unrolling is a prefix of "
          "the unbuffered items, followed by the SAME error e (the partial children of the buffered master are dropped); C08_master_end_found — with EOF "
          "closing the End of an open buffered master is always found (the EOF branch of buffer_master is unreachable); step simulation incl. steps that "
-         "queue an error; algebraic core (roll-up / unroll, same-id nesting). EOF inside a buffered master with emit_master_end_when_eof(false) is "
-         "known finding D18 (the theorems show it is the only way the two runs can differ).", ""),
+         "queue an error; algebraic core (roll-up / unroll, same-id nesting). C08_buffered_run_unrolls needs the unbuffered run to stay within the "
+         "driver's item limit (no OLimit outcome; C08_limit_ex shows why; the _short form avoids it). With EOF closing OFF only the first direction "
+         "(buffered clean => unrolled = unbuffered) is proved; the clean/error directions are then NOT proved for any input — the known divergence "
+         "there is finding D18 (EOF inside a buffered master with emit_master_end_when_eof(false)), other inputs rest on the correspondence run.", ""),
  "C12": ("Theorems (Proofs/Partial.v, CutExists.v): C12_every_cut_partial — for every strict configuration, every conforming document and EVERY cut "
          "position k, reading the first k bytes yields out_tdoc (cut_doc f k): the items of everything complete (a master's Start once its header is "
          "complete), then on a tag boundary the Ends of all open masters and None, and inside a tag the Ends of the known-size masters complete at that "
@@ -180,16 +190,20 @@ PROVED = {
          "placeholder-free declared paths with any subset of unknown-size masters (above), and — C12_truncated_run_known_partial / "
          "C12_every_cut_known_partial (Proofs/PartialKnown.v) — every master of known size with declared paths that may contain global placeholders "
          "(global elements at any depth, recursive masters). Only unknown-size masters combined with global placeholders (inherently ambiguous) are "
-         "left to the correspondence run, which cuts generated documents with global elements at every byte position.", ""),
+         "left to the correspondence run, which cuts generated documents with global elements at every byte position."
+         " ('Strict configuration' in these theorems = the three tolerances off; the document-level theorems also assume nothing buffered and end-of-stream closing on, the default — c_buffered = [] and c_emit_eof = true are explicit hypotheses.)", ""),
  "C14": ("Theorems (Proofs/Recover.v, RecoverKnown.v): C14_damaged_run_partial — for every strict configuration and every document with a run of junk "
          "inserted between two tags at any nesting depth (masters of known or unknown size), if the following tag still fits inside every enclosing "
          "known-size master after the shift and no header check passes at any junk position, then next() yields the tags before the junk unchanged, "
          "exactly one error, try_recover() succeeds (it walks exactly over the junk and enlarges every open known-size master by the skipped distance) and "
          "all remaining tags follow; C14_recovery_loses_nothing_partial — the tag sequence, error and recovery aside, equals that of the undamaged "
          "document; both also for the second document class (all masters of known size, declared paths with global placeholders: "
-         "C14_damaged_run_known_partial, C14_recovery_loses_nothing_known_partial); try_recover never moves backwards and fails only with end of input "
-         "(all states). Header checks are shown to depend only on the parse fields of the state. The junk condition is semantic (per position); the "
-         "generator of the correspondence run draws junk from byte classes without ids in the specification and computes the premise independently.", ""),
+         "C14_damaged_run_known_partial, C14_recovery_loses_nothing_known_partial); try_recover never moves backwards and fails only with end of input or an error of the source "
+         "(all states; the latter since the repair of D25). Header checks are shown to depend only on the parse fields of the state. The junk condition is semantic (per position); the "
+         "generator of the correspondence run draws junk from byte classes without ids in the specification and computes the premise independently. "
+         "For the second class the junk must come after the document position is determined (hypothesis jstart: a placeholder-free element "
+         "precedes it at top level), since before that point the reader judges no hierarchy and the junk condition has no meaning."
+         " ('Strict configuration' in these theorems = the three tolerances off; the document-level theorems also assume nothing buffered and end-of-stream closing on, the default — c_buffered = [] and c_emit_eof = true are explicit hypotheses.)", ""),
  "C20": ("PARTIAL + known finding D15. C20_ahead_partial / C20_ahead_blocking (Proofs/AsyncAhead.v): on every schedule that keeps the delivered data "
          "ahead of the parser (after each call at least 16 unread delivered bytes remain and no end-of-file error is queued, or the source is exhausted; "
          "Fail-free script; a computable criterion aheadb over the model's run) the non-blocking iterator yields exactly the abstract reader's run = the "
